@@ -12,6 +12,7 @@ import (
 	"tkestack.io/galaxy/pkg/utils/nets"
 
 	"verif.local/mc/coop"
+	"verif.local/mc/coop/vmap"
 	"verif.local/mc/world"
 )
 
@@ -425,6 +426,9 @@ type c06Pod struct {
 	Spec    world.PodSpec
 	Holder  string // IP pre-allocated to the pod's key ("" none)
 	Reserve string // IP pre-allocated to the deployment's reserve key
+	// Reserve2: a second reserve IP (in another pool); Rot: iteration order over the tables while the case runs
+	Reserve2 string
+	Rot      int
 }
 
 func c06Pods(cfg world.Config, ips []string) []c06Pod {
@@ -471,7 +475,28 @@ func c06Pods(cfg world.Config, ips []string) []c06Pod {
 	for _, ip := range ips {
 		out = append(out, c06Pod{Name: "dp-reserve:" + ip, Spec: dp, Reserve: ip})
 	}
+	// the app's reserve holds two IPs of different pools; which one a replacement pod gets must not depend on the order in
+	// which the table is walked
+	for i, a := range ips {
+		for j, b := range ips {
+			if i < j && poolIndexOf(cfg, a) != poolIndexOf(cfg, b) {
+				for rot := 0; rot < 3; rot++ {
+					out = append(out, c06Pod{Name: fmt.Sprintf("dp-reserve2:%s+%s/order%d", a, b, rot), Spec: dp, Reserve: a, Reserve2: b, Rot: rot})
+				}
+			}
+		}
+	}
 	return out
+}
+
+// poolIndexOf returns the index of the pool of cfg that holds ip (-1 if none).
+func poolIndexOf(cfg world.Config, ip string) int {
+	for i, p := range poolsOf(cfg.Pools) {
+		if p.Contains(net.ParseIP(ip)) {
+			return i
+		}
+	}
+	return -1
 }
 
 func subsetsUpTo(items []string, k int) [][]string {
@@ -520,7 +545,7 @@ func c06Job(shard, nshards, maxPools, maxBusy int) Job {
 
 func c06Case(r *caseResult, scen string, ci int, cfg world.Config, ips, busy []string, pd c06Pod) {
 	c06CaseR(r, scen, ci, cfg, ips, busy, pd, false)
-	if len(busy) > 0 || pd.Holder != "" || pd.Reserve != "" {
+	if (len(busy) > 0 || pd.Holder != "" || pd.Reserve != "") && pd.Reserve2 == "" {
 		// the same case after a restart of galaxy-ipam (tables rebuilt from the store)
 		c06CaseR(r, scen, ci, cfg, ips, busy, pd, true)
 	}
@@ -531,9 +556,11 @@ func c06CaseR(r *caseResult, scen string, ci int, cfg world.Config, ips, busy []
 	for _, b := range busy {
 		isBusy[b] = true
 	}
-	if pd.Holder != "" && isBusy[pd.Holder] || pd.Reserve != "" && isBusy[pd.Reserve] {
+	if pd.Holder != "" && isBusy[pd.Holder] || pd.Reserve != "" && isBusy[pd.Reserve] || pd.Reserve2 != "" && isBusy[pd.Reserve2] {
 		return
 	}
+	vmap.Rotation = pd.Rot
+	defer func() { vmap.Rotation = 0 }()
 	desc := fmt.Sprintf("config#%d %s busy=%v pod=%s restart=%v", ci, cfg.Pools, busy, pd.Name, restart)
 	class := strings.SplitN(pd.Name, ":", 2)[0]
 	build := func() *world.World {
@@ -554,6 +581,9 @@ func c06CaseR(r *caseResult, scen string, ci int, cfg world.Config, ips, busy []
 		if pd.Reserve != "" {
 			_ = w.Plugin.GetIpam().AllocateSpecificIP(k.PoolPrefix(), net.ParseIP(pd.Reserve), floatingip.Attr{Policy: 1})
 		}
+		if pd.Reserve2 != "" {
+			_ = w.Plugin.GetIpam().AllocateSpecificIP(k.PoolPrefix(), net.ParseIP(pd.Reserve2), floatingip.Attr{Policy: 1})
+		}
 		if restart {
 			if err := w.Restart(); err != nil {
 				panic(err)
@@ -573,7 +603,7 @@ func c06CaseR(r *caseResult, scen string, ci int, cfg world.Config, ips, busy []
 	freeOn := map[string]bool{}
 	for _, n := range cfg.Nodes {
 		for _, ip := range ips {
-			if !isBusy[ip] && ip != pd.Holder && ip != pd.Reserve && routableNodes(cfg, ip)[n.Name] {
+			if !isBusy[ip] && ip != pd.Holder && ip != pd.Reserve && ip != pd.Reserve2 && routableNodes(cfg, ip)[n.Name] {
 				freeOn[n.Name] = true
 			}
 		}
@@ -637,7 +667,7 @@ func c06CaseR(r *caseResult, scen string, ci int, cfg world.Config, ips, busy []
 		}
 		taken := 0
 		for _, ip := range ips {
-			if !isBusy[ip] && ip != pd.Holder && ip != pd.Reserve && routableNodes(cfg, ip)[node] {
+			if !isBusy[ip] && ip != pd.Holder && ip != pd.Reserve && ip != pd.Reserve2 && routableNodes(cfg, ip)[node] {
 				if preAllocate(w3, ip, "sts_ns_thief_thief-0", "ut") == nil {
 					taken++
 				}
